@@ -125,6 +125,11 @@ def run(ctx, R, tier):
                     'decoder it busy-spins until the audio thread happens to process the sound and marks it Stopped (never, if the '
                     'sound was rejected, or its track is paused or gone)', detail={'calls': calls}, where=c.where(L['header']))
     R.floor('B.C10.spin', ncyc, 2)
+    # every turn of the thread loop goes through run(), the one place that looks at Stopped / abandoned: a turn that sleeps
+    # and goes round without it (e.g. "nothing to decode while paused") never notices that the sound was discarded
+    norun = [p for p in cycles if not any(cp == DS + '::run' for _, cp in p.calls)]
+    R.check(bool(cycles) and not norun, 'B.C10.exit', 'every-turn-runs', '%d of the %d cycles of the decoder thread loop do not call run(): the thread does not '
+            'look at its exit conditions on them' % (len(norun), len(cycles)), detail={'cycles': len(cycles)}, where=c.file)
 
     # ---- error order
     errc = [p for p in explore(c) if any(lab == 'Err' for _, _, lab in p.decisions)]
